@@ -70,6 +70,18 @@ def says_supported(op, a, b, truth):
     return (op == '>=' and truth) or (op == '<' and not truth)
 
 
+def returned_comparison(v):
+    """A function that returns the comparison itself (`return a >= b`, `return not a < b`):
+    -> (op, a, b, truth) meaning "returns True exactly when (a op b) has this truth"."""
+    truth = True
+    while isinstance(v, NotC):
+        v, truth = v.c, not truth
+    if isinstance(v, Cmp) and v.op in ('<', '<=', '>', '>=') and not (
+            isinstance(v.a, Sym) and isinstance(v.b, Sym)):
+        return v.op, v.a, v.b, truth
+    return None
+
+
 def pipeline(v):
     """Operations applied to the reply to obtain the compared version: list of op names, source."""
     ops = []
@@ -84,6 +96,13 @@ def pipeline(v):
         elif isinstance(v, Opaque) and v.label == 'item' and isinstance(v.args[1], Sym) \
                 and v.args[1].is_const():
             ops.append('[%d]' % int(v.args[1].const_value()))
+            v = v.args[0]
+        elif isinstance(v, Opaque) and v.label == 'm:partition' and len(v.args) == 2 and \
+                ops and ops[-1] == '[2]' and isinstance(v.args[1], Str) and v.args[1].is_lit():
+            # s.partition(m)[2] is s.split(m, 1)[1] whenever m occurs in s (and '' otherwise, which
+            # the code must then treat as "no version", like the length test of the split form)
+            ops[-1] = '[1]'
+            ops.append('split(%r,1)' % v.args[1].text())
             v = v.args[0]
         elif isinstance(v, Opaque) and v.label == 'm:split' and len(v.args) >= 2:
             ops.append('split(%s)' % ','.join(
@@ -142,6 +161,10 @@ def check_legacy_min_version(ck, prog):
             continue
         cls = classify_ret(o.value)
         cmps = version_cmps(o.state.path)
+        rc = returned_comparison(o.value)
+        if rc is not None and not cmps:
+            cmps = [rc]
+            cls = 'true'
         if cls in ('true', 'false'):
             if len(cmps) != 1:
                 ck.ob('C15-D1-numeric-order', q, False,
@@ -165,7 +188,7 @@ def check_legacy_min_version(ck, prog):
                     ck.ob('C15-D1-threshold-operand', q, ops == ['parse'] and src == thr,
                           '%s: the threshold operand is not parse(version_string)' % q, fn.loc(),
                           key=q + '::threshold')
-    ck.floor('legacy min_version deciding paths', n, 2)
+    ck.floor('legacy min_version deciding paths', n, 1)
     # no-port and unparsable-reply answers are None
     outs = run_helper(prog, fn, port=NONE, overrides={fn.params[1]: thr}, hooks=LegacyHooks())
     ck.ob('C15-D1-no-port', q, all(o.kind == 'return' and o.value == NONE for o in outs),
@@ -186,6 +209,10 @@ def check_ebb3_min_version(ck, eng):
             continue
         cls = classify_ret(o.value)
         cmps = version_cmps(o.state.path)
+        rc = returned_comparison(o.value)
+        if rc is not None and not cmps:
+            cmps = [rc]
+            cls = 'true'
         if cls in ('true', 'false') and cmps:
             op, a, b, t = cmps[0]
             n += 1
@@ -196,7 +223,7 @@ def check_ebb3_min_version(ck, eng):
             ck.ob('C15-D1-threshold-operand', q, ops == ['parse'] and src == thr,
                   '%s: the threshold operand is not parse(version_string)' % q, fn.loc(),
                   key=q + '::threshold')
-    ck.floor('EBB3 min_version deciding paths', n, 2)
+    ck.floor('EBB3 min_version deciding paths', n, 1)
     # version_parsed is only ever stored from parse(...) of the handshake reply
     stores = []
     for name, m in public_methods(eng.cls).items():
